@@ -17,8 +17,9 @@ def run(prog, chk):
     f = prog.func("SFTPServerInterface.canonicalize")
     p = f.params()[1]
     if not any(M.is_call(c, name="os.path.normpath") for c in walk_no_defs(f.node)):
-        raise AnalysisError("SFTPServerInterface.canonicalize",
-                            "no longer delegates to os.path.normpath; a hand-written normaliser is outside what this rule can decide")
+        _hand_written(prog, chk, f)
+        _realpath_arm(prog, chk)
+        return
     fl = Flow(prog, f, implicit=False)
     rets = fl.nodes(lambda n: n.kind == "return")
     chk.floor("R1", "returns of canonicalize", len(rets), 1)
@@ -58,6 +59,56 @@ def run(prog, chk):
     bad = [unparse(x)[:50] for (n, x) in post if not fl.dominated([n], guard_edge=gw)]
     chk.ob("R1.no-posix-postprocessing", "canonicalize", not bad, f.loc,
            "operations applied to the normalised path outside the win32 arm: %s" % bad if bad else "the normalised path is returned untouched on POSIX")
+    _realpath_arm(prog, chk)
+
+
+def _hand_written(prog, chk, f):
+    """A canonicalize that resolves the components itself touches the path only through its '/'-separated components,
+    and the result's containment depends only on each component's class: '', '.', '..' or an ordinary name.  The
+    function's AST is evaluated on every sequence of component classes up to length 6, with and without a leading
+    '/', and compared with the statement: the result is absolute, has no '.', '..' or empty component, and equals
+    what resolving the components against '/' gives (a '..' at the root stays at the root)."""
+    import itertools
+    from ..core.interp import Interp, Obj
+    chk.exhaustive = True
+    bad = None
+    ncase = 0
+    comps = ["", ".", "..", "n"]
+    for L in range(0, 7):
+        for seq in itertools.product(comps, repeat=L):
+            names = []
+            k = 0
+            for c in seq:
+                if c == "n":
+                    k += 1
+                    names.append("d%d" % k)
+                else:
+                    names.append(c)
+            for lead in ("", "/"):
+                ncase += 1
+                path = lead + "/".join(names)
+                stack = []
+                for c in names:
+                    if c in ("", "."):
+                        continue
+                    if c == "..":
+                        if stack:
+                            stack.pop()
+                    else:
+                        stack.append(c)
+                want = "/" + "/".join(stack)
+                it = Interp(intrinsics={"sys.platform": "linux", "os.path.isabs": lambda q: q.startswith("/"), "os.sep": "/"}, arith=True)
+                kind, val = it.call_function(f.node, {f.params()[0]: Obj(), f.params()[1]: path})
+                okv = kind == "return" and isinstance(val, str) and val.startswith("/") and \
+                    not any(c in ("..", ".") for c in val.split("/")) and val == want
+                if not okv and bad is None:
+                    bad = "canonicalize(%r) -> %s %r, want %r" % (path, kind, val, want)
+    chk.count("R1 component-class sequences evaluated", ncase)
+    chk.ob("R1.hand-written-normaliser-stays-under-root", "canonicalize", bad is None, f.loc,
+           "%d paths (all sequences of '', '.', '..', name up to 6 components, relative and absolute)%s" % (ncase, "" if bad is None else "; first failing: " + bad))
+
+
+def _realpath_arm(prog, chk):
     # R2 REALPATH arm
     pr = prog.func("SFTPServer._process")
     env = {}
